@@ -17,13 +17,11 @@ from . import common
 from .common import Check
 
 FINDING_OF_SITE_HINT = {
-    "basetypes-intern-order": "gotypereg.go:Zlisp.ImportBaseTypes",
     "fillhash-first-registry-match": "hashutils.go:fillHashHelper",
     "callgo-first-registry-match": "callgo.go:CallGoMethodFunction",
     "togo-map-colliding-keys": "jsonmsgp.go:SexpToGoStructs",
     "togo-unknown-field-order": "jsonmsgp.go:SexpToGoStructs",
     "scope-show-shared-printstate": "scopes.go:Scope.Show",
-    "countfuncs-print-order": "repl.go:runScript",
     "registry-process-global": "gotypereg.go:GoStructRegistryType.register",
 }
 
@@ -140,18 +138,14 @@ def classify(d, groups, regnames=()):
             return sorted(re.sub(r"^\s*[\w.]+ -> ", "K -> ", ln.strip()) for ln in t.replace("\\n", "\n").split("\n"))
         if lines(a) == lines(b):
             return "scope-show-shared-printstate"
-    # zygo -countcalls: the counters are printed while ranging over the counter maps
-    if "cli" in d.get("tags", []) and "Pre:" in d["a"]["o"] and "Post:" in d["b"]["o"]:
-        if sorted(d["a"]["o"].split("\n")) == sorted(d["b"]["o"].split("\n")) and d["a"]["v"] == d["b"]["v"] and d["a"]["e"] == d["b"]["e"]:
-            return "countfuncs-print-order"
-    # symbol numbers of the registered type names (ImportBaseTypes interns them in map order)
-    if d.get("type_symbol_numbers_differ_before_run") and not d.get("builtin_symbol_numbers_differ_before_run") and re.search(r"symnum|\(< \(quote", prog) \
-            and all(q in regnames for q in re.findall(r"\(quote ([^\s()]+)\)", prog)):
-        mask = lambda t: re.sub(r"\btrue\b|\bfalse\b", "B", re.sub(r"\b\d+\b", "N", t))
-        if mask(a) == mask(b):
-            return "basetypes-intern-order"
     # the process-global type registry differed before the two runs started
-    if d.get("registry_differs_before_run") and d["kind"] in ("repeat", "after", "afterclean", "batch") and REGISTRY_SENSITIVE.search(prog):
+    # ... i.e. the SET of registered types differed (names present before only one of the runs), while
+    # the names present before both were interned in the same relative order (the set-up itself is
+    # deterministic); never across two fresh processes
+    if d.get("registry_differs_before_run") and d["kind"] in ("repeat", "after", "afterclean", "batch") \
+            and d.get("common_type_names_interned_in_same_order") \
+            and (d.get("type_names_only_before_a") or d.get("type_names_only_before_b") or not re.search(r"symnum|\(< \(quote|gensym", prog)) \
+            and REGISTRY_SENSITIVE.search(prog):
         return "registry-process-global"
     return None
 
@@ -243,6 +237,9 @@ def main(argv):
             "registry_differs_before_run": d.get("registry_differs_before_run"),
             "type_symbol_numbers_differ_before_run": d.get("type_symbol_numbers_differ_before_run"),
             "builtin_symbol_numbers_differ_before_run": d.get("builtin_symbol_numbers_differ_before_run"),
+            "type_names_only_before_a": d.get("type_names_only_before_a"),
+            "type_names_only_before_b": d.get("type_names_only_before_b"),
+            "common_type_names_interned_in_same_order": d.get("common_type_names_interned_in_same_order"),
             "uncovered_walks": uncovered, "uncovered_globals": ugl,
             "replay": "bin/check C20 --replay <this file>  (runs the program in 24 fresh processes x 3 interpreters)",
         }
